@@ -11,8 +11,22 @@ def run(prop, path):
     if data.get("bounded"):
         print("bounded-check failure recorded as:")
         print(json.dumps(data.get("failure"), indent=1)[:4000])
-        print("re-run the property's check to re-evaluate the bounded seam on the current tree")
-        return 1
+        fname = data.get("seam_func")
+        if not fname:
+            print("re-run the property's check to re-evaluate the bounded seam on the current tree")
+            return 1
+        # re-run the seam that produced this input (same tier and seed) against the current tree and look for the same key
+        from props import plans
+        rec = plans.seam(fname)(data.get("tier") or "quick", int(data.get("seed") or 0))
+        recs = rec if isinstance(rec, list) else [rec]
+        want = (data.get("failure") or {}).get("key")
+        hits = [fl for r in recs for fl in r.get("failures", []) if fl.get("key") == want]
+        if hits:
+            print(f"REPRODUCED on the current tree: seam {fname} still fails for input {want!r}:")
+            print(json.dumps(hits[0], indent=1, default=repr)[:3000])
+            return 1
+        print(f"not reproduced on the current tree: seam {fname} no longer fails for input {want!r}")
+        return 0
     rec = data.get("record", {})
     print("verdict:", rec.get("verdict"), "backend:", rec.get("backend"))
     if data.get("note"):
